@@ -51,6 +51,32 @@ Proof.
   rewrite E. exact Hr.
 Qed.
 
+(* the header-first variant puts the same bytes on a stream *)
+Theorem put_nocopy_bytes data k :
+  N.of_nat (length (spec_reply_wire (Some k) data)) < two64 ->
+  exists h, put_raw_packet_with_pit_token_nocopy true data k = Ok [h; data] /\
+            h ++ data = spec_reply_wire (Some k) data.
+Proof.
+  intros Hl. unfold put_raw_packet_with_pit_token_nocopy, encode_model. cbn [mk_vals]. cbn.
+  rewrite !app_nil_r. cbn [bind].
+  unfold spec_reply_wire in *. unfold tlv in Hl. rewrite !app_length, !tl_enc_length in Hl.
+  match goal with |- context [tl_enc_r ?x] => set (lp_l := x) end.
+  assert (lp_l = N.of_nat (length (tlv T_PIT_TOKEN k ++ tlv T_FRAGMENT data))) as E.
+  { subst lp_l. unfold tlv. rewrite !app_length, !tl_enc_length.
+    change (tl_size T_PIT_TOKEN) with 1%nat. change (tl_size T_FRAGMENT) with 1%nat. change (tl_size 98) with 1%nat. lia. }
+  change (tl_size T_LP_PACKET) with 1%nat in Hl. change (tl_size T_PIT_TOKEN) with 1%nat in Hl.
+  change (tl_size T_FRAGMENT) with 1%nat in Hl.
+  assert (lp_l < two64) as Hlp.
+  { rewrite E. unfold tlv. rewrite !app_length, !tl_enc_length.
+    change (tl_size T_PIT_TOKEN) with 1%nat. change (tl_size T_FRAGMENT) with 1%nat. lia. }
+  unfold tl_enc_r.
+  replace (lp_l <? two64) with true by (symmetry; apply N.ltb_lt; exact Hlp).
+  replace (N.of_nat (length data) <? two64) with true by (symmetry; apply N.ltb_lt; lia).
+  cbn [bind]. eexists. split; [reflexivity|].
+  rewrite E. unfold tlv. change LP_PACKET with T_LP_PACKET. change FRAGMENT with T_FRAGMENT. change 98 with T_PIT_TOKEN.
+  rewrite <- !app_assoc. reflexivity.
+Qed.
+
 (* ---- these wires are envelopes ---------------------------------------------------------------------- *)
 Definition token_vals (k data : bytes) : list value :=
   mk_vals lp_fields [(attr_pit_token, VBytes k); (attr_fragment, VBytes data)].
